@@ -1,4 +1,5 @@
 import Gengo.Model.Loader
+import Gengo.Lemmas.WalkInv
 import Gengo.Lemmas.StrOrder
 /-! # C11 – the universe does not depend on how loading was split or ordered
 
@@ -357,5 +358,27 @@ theorem v1_addDirTo_requested (w : World) (st st' : LState) (path : Str) (h : ad
   · simp only [hc, if_true]; exact ⟨Sub.refl _, by simpa using hc⟩
   · simp only [hc, Bool.false_eq_true, if_false]
     exact ⟨fun x hx => List.mem_append_left _ hx, by simp⟩
+
+/-! ## objects obtained before an incremental load stay valid (full model, Lemmas/WalkInv.lean) -/
+
+/-- **objects_stable_across_incremental_loads**: whatever name resolved to an object before `LoadPackagesTo`
+resolves to the same object afterwards, and that object keeps its name and any kind it had – it is only ever
+filled in, never replaced -/
+theorem loadTo_objects_stable (w : World) (st st' : LState) (more : List Str) (hinv : WalkInv.Inv w.bt st.u)
+    (h : loadToV2 w st more = some st') (n : Universe.Name) (o : Nat) (ob : Universe.Obj)
+    (hl : AL.lookup n st.u.types = some o) (hob : st.u.objs[o]? = some ob) :
+    AL.lookup n st'.u.types = some o ∧
+    ∃ ob' : Universe.Obj, st'.u.objs[o]? = some ob' ∧ ob'.name = ob.name ∧ (ob.kind ≠ .unknown → ob'.kind = ob.kind) := by
+  have g := (WalkInv.loadToV2_inv w st st' more hinv h).2
+  exact ⟨g.idx n o hl, g.objs o ob hob⟩
+
+/-- the same for v1 `AddDirTo` -/
+theorem addDirTo_objects_stable (w : World) (st st' : LState) (path : Str) (hinv : WalkInv.Inv w.bt st.u)
+    (h : addDirToV1 w st path = some st') (n : Universe.Name) (o : Nat) (ob : Universe.Obj)
+    (hl : AL.lookup n st.u.types = some o) (hob : st.u.objs[o]? = some ob) :
+    AL.lookup n st'.u.types = some o ∧
+    ∃ ob' : Universe.Obj, st'.u.objs[o]? = some ob' ∧ ob'.name = ob.name ∧ (ob.kind ≠ .unknown → ob'.kind = ob.kind) := by
+  have g := (WalkInv.addDirToV1_inv w st st' path hinv h).2
+  exact ⟨g.idx n o hl, g.objs o ob hob⟩
 
 end Gengo.C11
